@@ -37,7 +37,10 @@ def findings_table():
         if not l or l.startswith("#"):
             continue
         d = json.loads(l)
-        what = d["what"].split(" ", 3)[-1].replace("|", "\\|")
+        if d["status"] == "fixed":
+            what = d["what"].split(" ", 3)[-1].replace("|", "\\|")
+        else:
+            what = d["what"].replace("|", "\\|") + f" [signature `{d['signature']}`]"
         rows.append(f"| {d['property']} | {d.get('commit','-')} ({d['status']}) | {what} | `{d.get('replay','-')}` |")
     return "\n".join(rows)
 
